@@ -29,7 +29,75 @@ static void run_fp(const Case& c) {
     }
 }
 
+// ident <id> <n> <nb> ; data
+static void run_ident(const Case& c) {
+    uint32_t n = std::stoul(c.head[2]), nb = std::stoul(c.head[3]);
+    PhaseSpace::resetSize(n, nb);
+    auto in = mkps(n, nb, c.data.data());
+    auto out = mkps(n, nb, nullptr);
+    Identity id(in, out, nullptr);
+    id.apply();
+    std::cout << "case " << c.id << '\n';
+    print_data("out", out->getData(), static_cast<size_t>(n) * n * nb);
+}
+
+// rf <id> <n> <it> <nb> <lin|sin> ; extra = qmin qmax pmin pmax qscale pscale angle f_RF [revpart V_RF V0] ; data
+// prints: aux (tan(angle) syncphase), off (all n*nb), tab, out
+static void run_rf(const Case& c) {
+    uint32_t n = std::stoul(c.head[2]), it = std::stoul(c.head[3]), nb = std::stoul(c.head[4]);
+    bool lin = c.head[5] == "lin";
+    const auto& e = c.extra;
+    PhaseSpace::resetSize(n, nb);
+    auto in = mkps(n, nb, c.data.data(), e[0], e[1], e[2], e[3], e[4], e[5]);
+    auto out = mkps(n, nb, nullptr, e[0], e[1], e[2], e[3], e[4], e[5]);
+    std::unique_ptr<ProbeRF> rf;
+    if (lin) rf.reset(new ProbeRF(in, out, e[6], e[7], static_cast<SourceMap::InterpolationType>(it), false, nullptr));
+    else rf.reset(new ProbeRF(in, out, e[8], e[9], e[7], e[10], static_cast<SourceMap::InterpolationType>(it), false, nullptr));
+    std::cout << "case " << c.id << '\n';
+    std::cout << "ints " << rf->lastbunch() << ' ' << rf->rows() << '\n';
+    // library values for the model (not compared): tan(angle), bl2phase, syncphase; sine table
+    std::cout << "aux " << hx(std::tan(rf->angle())) << ' ' << hx(rf->bl2phase()) << ' ' << hx(rf->syncphase()) << '\n';
+    if (!lin) {
+        std::cout << "aux2";
+        for (uint32_t x = 0; x < n; x++) {
+            float arg = in->getAxis(0)->at(x) * rf->bl2phase() + rf->syncphase();
+            std::cout << ' ' << hx(arg) << ' ' << hx(std::sin(arg));
+        }
+        std::cout << '\n';
+    }
+    print_data("off", rf->offsets().data(), rf->offsets().size());
+    print_table(rf->table(), rf->rows(), rf->ip());
+    rf->apply();
+    print_data("out", out->getData(), static_cast<size_t>(n) * n * nb);
+}
+
+// drift <id> <n> <it> <nb> ; extra = qmin qmax pmin pmax qscale pscale slip0 slip1 slip2 E0 ; data
+static void run_drift(const Case& c) {
+    uint32_t n = std::stoul(c.head[2]), it = std::stoul(c.head[3]), nb = std::stoul(c.head[4]);
+    const auto& e = c.extra;
+    PhaseSpace::resetSize(n, nb);
+    auto in = mkps(n, nb, c.data.data(), e[0], e[1], e[2], e[3], e[4], e[5]);
+    auto out = mkps(n, nb, nullptr, e[0], e[1], e[2], e[3], e[4], e[5]);
+    std::vector<meshaxis_t> slip{e[6], e[7], e[8]};
+    ProbeDrift dm(in, out, slip, e[9], static_cast<SourceMap::InterpolationType>(it), false, nullptr);
+    std::cout << "case " << c.id << '\n';
+    std::cout << "aux2";
+    for (uint32_t y = 0; y < n; y++) {
+        float base = in->getAxis(1)->at(y) * in->getAxis(1)->scale("ElectronVolt") / e[9];
+        std::cout << ' ' << hx(base);
+        for (int i = 0; i < 3; i++) std::cout << ' ' << hx(std::pow(base, static_cast<meshaxis_t>(i)));
+    }
+    std::cout << '\n';
+    print_data("off", dm.offsets().data(), dm.offsets().size());
+    print_table(dm.table(), dm.rows(), dm.ip());
+    dm.apply();
+    print_data("out", out->getData(), static_cast<size_t>(n) * n * nb);
+}
+
 static bool dispatch_more(const Case& c) {
+    if (c.kind == "rf") { run_rf(c); return true; }
+    if (c.kind == "drift") { run_drift(c); return true; }
+    if (c.kind == "ident") { run_ident(c); return true; }
     if (c.kind == "fp") { run_fp(c); return true; }
     return false;
 }
